@@ -81,6 +81,17 @@ def alive(pid):
         return False
 
 
+def start_ticks(pid):
+    """starttime field of /proc/<pid>/stat (clock ticks since boot), None if there is no such process: tells a process from a
+    later, unrelated one that was given the same pid (on a busy machine the pid space wraps within seconds)."""
+    try:
+        with open("/proc/%d/stat" % pid, "rb") as f:
+            s = f.read().decode("latin-1")
+        return int(s[s.rfind(")") + 2:].split()[19])
+    except (OSError, ValueError, IndexError):
+        return None
+
+
 def proc_ids(pid):
     """Uid/Gid/Groups lines of /proc/<pid>/status as lists of ints."""
     out = {}
